@@ -1,7 +1,7 @@
 //! C31 (simulator half) — slices partition streams and take monotone snapshots.
 //!
-//! Four corpus flows (flows.rs: c31_basic, c31_atomic, c31_keyed, c31_buffer) emit one record per slice with
-//! what each hook revealed. Oracle (from docs/…/slices.mdx "Guarantees" and the hook docs):
+//! Corpus flows (flows.rs: c31_basic, c31_atomic, c31_keyed, c31_buffer, and c31_multi in the thorough tier)
+//! emit one record per slice with what each hook revealed. Oracle (from docs/…/slices.mdx "Guarantees" and the hook docs):
 //!  * batches partition the input: concatenation of the observed batches == the input that was sent, in order
 //!    (per key for keyed streams), each element in exactly one batch;
 //!  * snapshots never go back: counts non-decreasing, set-valued snapshots growing, keys never disappear,
@@ -20,7 +20,7 @@ use hydro_lang::sim::{SimReceiver, SimSender};
 use vcommon::{Args, Reporter, Rng, Tier, json};
 
 use super::corpus::{Corpus, Explored, Judgement, explore, replay};
-use crate::flows::{self, C31Atomic, C31Basic, C31Buffer, C31Keyed, Node};
+use crate::flows::{self, C31Atomic, C31Basic, C31Buffer, C31Keyed, C31Multi, Node};
 
 type Tx<T> = &'static SimSender<T, TotalOrder, ExactlyOnce>;
 type Rx<T> = SimReceiver<T, TotalOrder, ExactlyOnce>;
@@ -47,6 +47,23 @@ fn compositions<T: Clone>(items: &[T]) -> Vec<Vec<Vec<T>>> {
         out.push(phases);
     }
     out
+}
+
+/// Largest exhaustively explored input length for a flow; `VERIF_C31_MAXN_<FLOW>` overrides (sizing probes).
+fn max_n(flow: &str, thorough: bool, quick: usize, thor: usize) -> usize {
+    std::env::var(format!("VERIF_C31_MAXN_{}", flow.to_uppercase()))
+        .ok()
+        .and_then(|v| v.parse().ok())
+        .unwrap_or(if thorough { thor } else { quick })
+}
+
+/// Inputs [3,1,4,2][..n] for n = 1..=max_n in every split into phases.
+fn int_scripts(max_n: usize) -> Vec<Vec<Vec<i64>>> {
+    let mut v = vec![];
+    for n in 1..=max_n.min(4) {
+        v.extend(compositions(&[3i64, 1, 4, 2][..n]));
+    }
+    v
 }
 
 fn random_phases<T: Clone>(r: &mut Rng, items: &[T]) -> Vec<Vec<T>> {
@@ -141,19 +158,12 @@ impl Corpus for Basic {
         let mut j = Judgement::default();
         let got: Vec<i64> = recs.iter().flat_map(|r| r.0.iter().copied()).collect();
         judge_partition(&mut j, "batch", sent, &got);
-        let mut prev_c = 0usize;
         let mut prev_set: BTreeSet<i64> = BTreeSet::new();
         let mut expect_state = 0usize;
         let mut batched = 0usize;
         let (mut lag, mut nonempty, mut snap_changes) = (0u64, 0u64, 0u64);
-        for (k, (b, c, set, seen)) in recs.iter().enumerate() {
-            j.evals += 3;
-            if *c < prev_c {
-                j.find(
-                    "count-snapshot-went-back",
-                    format!("slice {k} saw count {c} after an earlier slice saw {prev_c}; records {recs:?}"),
-                );
-            }
+        for (k, (b, set, seen)) in recs.iter().enumerate() {
+            j.evals += 2;
             let set_now: BTreeSet<i64> = set.iter().copied().collect();
             if !prev_set.is_subset(&set_now) {
                 j.find(
@@ -167,18 +177,17 @@ impl Corpus for Basic {
                     format!("slice {k} read state {seen} but the previous slice wrote {expect_state}; records {recs:?}"),
                 );
             }
-            if *c != prev_c || set_now != prev_set {
+            if set_now != prev_set {
                 snap_changes += 1;
             }
             expect_state = seen + b.len();
             batched += b.len();
-            if *c < batched {
+            if set_now.len() < batched {
                 lag += 1;
             }
             if !b.is_empty() {
                 nonempty += 1;
             }
-            prev_c = *c;
             prev_set = set_now;
         }
         j.nontrivial = nonempty >= 2 || (nonempty >= 1 && snap_changes >= 2);
@@ -188,17 +197,7 @@ impl Corpus for Basic {
     }
 
     fn exhaustive_scripts(thorough: bool) -> Vec<Self::Script> {
-        let max_n = if thorough { 4 } else { 3 };
-        let mut v = vec![];
-        for n in 1..=max_n {
-            let items: Vec<i64> = [3, 1, 4, 2][..n].to_vec();
-            v.extend(compositions(&items));
-        }
-        if !thorough {
-            v.push(vec![vec![3, 1, 4, 2]]);
-            v.push(vec![vec![3, 1], vec![4, 2]]);
-        }
-        v
+        int_scripts(max_n("basic", thorough, 3, 4))
     }
 
     fn random_script(r: &mut Rng) -> Self::Script {
@@ -206,6 +205,101 @@ impl Corpus for Basic {
         let mut items: Vec<i64> = (1..=n as i64).collect();
         r.shuffle(&mut items);
         random_phases(r, &items)
+    }
+}
+
+// -------------------------------------------------------------------------------------------------
+pub struct Multi;
+#[derive(Clone, Copy)]
+pub struct MultiPorts {
+    inp: Tx<i64>,
+    out: Rx<C31Multi>,
+}
+
+impl Corpus for Multi {
+    const NAME: &'static str = "multi";
+    type Ports = MultiPorts;
+    type Script = Vec<Vec<i64>>;
+    type Trace = (Vec<i64>, Vec<C31Multi>);
+
+    fn build() -> (CompiledSim, MultiPorts) {
+        let mut flow = FlowBuilder::new();
+        let p = flow.process::<Node>();
+        let (inp, s) = p.sim_input::<i64, TotalOrder, ExactlyOnce>();
+        let out = flows::c31_multi(s).sim_output();
+        (flow.sim().compiled(), MultiPorts { inp: leak(inp), out })
+    }
+
+    async fn drive(p: MultiPorts, s: &Self::Script) -> Self::Trace {
+        let mut sent = vec![];
+        let mut recs = vec![];
+        for (i, ph) in s.iter().enumerate() {
+            p.inp.send_many(ph.clone());
+            sent.extend(ph.iter().copied());
+            if i + 1 < s.len() {
+                match p.out.try_next().await {
+                    Some(r) => recs.push(r),
+                    None => break,
+                }
+            }
+        }
+        let rest: Vec<C31Multi> = p.out.collect().await;
+        recs.extend(rest);
+        (sent, recs)
+    }
+
+    fn judge(_s: &Self::Script, t: &Self::Trace) -> Judgement {
+        let (sent, recs) = t;
+        let mut j = Judgement::default();
+        let got: Vec<i64> = recs.iter().flat_map(|r| r.0.iter().copied()).collect();
+        judge_partition(&mut j, "batch", sent, &got);
+        // inputs are positive, so both the count and the sum of a longer prefix are larger
+        let (mut prev_c, mut prev_s) = (0usize, 0i64);
+        let mut expect_state = 0usize;
+        let (mut nonempty, mut differ) = (0u64, 0u64);
+        for (k, (b, c, sum, seen)) in recs.iter().enumerate() {
+            j.evals += 3;
+            if *c < prev_c {
+                j.find(
+                    "count-snapshot-went-back",
+                    format!("slice {k} saw count {c} after an earlier slice saw {prev_c}; records {recs:?}"),
+                );
+            }
+            if *sum < prev_s {
+                j.find(
+                    "sum-snapshot-went-back",
+                    format!("slice {k} saw sum {sum} after an earlier slice saw {prev_s}; records {recs:?}"),
+                );
+            }
+            if *seen != expect_state {
+                j.find(
+                    "state-not-carried",
+                    format!("slice {k} read state {seen} but the previous slice wrote {expect_state}; records {recs:?}"),
+                );
+            }
+            // evidence only: the two (non-atomic) snapshots describe different prefixes of the input
+            if sent.iter().take(*c).sum::<i64>() != *sum {
+                differ += 1;
+            }
+            expect_state = seen + b.len();
+            if !b.is_empty() {
+                nonempty += 1;
+            }
+            prev_c = *c;
+            prev_s = *sum;
+        }
+        j.nontrivial = nonempty >= 2;
+        j.count("slices", recs.len() as u64);
+        j.count("slices_where_the_two_snapshots_show_different_prefixes", differ);
+        j
+    }
+
+    fn exhaustive_scripts(thorough: bool) -> Vec<Self::Script> {
+        int_scripts(max_n("multi", thorough, 2, 3))
+    }
+
+    fn random_script(r: &mut Rng) -> Self::Script {
+        Basic::random_script(r)
     }
 }
 
@@ -313,7 +407,7 @@ impl Corpus for Atomic {
     }
 
     fn exhaustive_scripts(thorough: bool) -> Vec<Self::Script> {
-        Basic::exhaustive_scripts(thorough)
+        int_scripts(max_n("atomic", thorough, 3, 4))
     }
 
     fn random_script(r: &mut Rng) -> Self::Script {
@@ -413,7 +507,7 @@ impl Corpus for Keyed {
     }
 
     fn exhaustive_scripts(thorough: bool) -> Vec<Self::Script> {
-        let max_n = if thorough { 4 } else { 3 };
+        let max_n = max_n("keyed", thorough, 3, 4);
         let mut v = vec![];
         for n in 1..=max_n {
             // key assignments over {0,1}, first key fixed to 0 (symmetry)
@@ -547,7 +641,7 @@ impl Corpus for Buffer {
 
     fn exhaustive_scripts(thorough: bool) -> Vec<Self::Script> {
         let mut v: Vec<Self::Script> = vec![];
-        let max_total = if thorough { 4 } else { 3 };
+        let max_total = max_n("buffer", thorough, 3, 4);
         for np in 1..=3usize {
             for leaders in [vec![], vec![7], vec![7, 9], vec![9, 7]] {
                 if np + leaders.len() > max_total {
@@ -615,6 +709,7 @@ pub fn run() {
             "basic" => replay::<Basic>("C31", TEST, &case),
             "atomic" => replay::<Atomic>("C31", TEST, &case),
             "keyed" => replay::<Keyed>("C31", TEST, &case),
+            "multi" => replay::<Multi>("C31", TEST, &case),
             _ => replay::<Buffer>("C31", TEST, &case),
         };
         fold(&mut rep, e, "replay", false);
@@ -628,8 +723,13 @@ pub fn run() {
     fold(&mut rep, explore::<Atomic>("C31", TEST, args.seed, thorough, budget), "atomic", true);
     fold(&mut rep, explore::<Keyed>("C31", TEST, args.seed, thorough, budget), "keyed", true);
     fold(&mut rep, explore::<Buffer>("C31", TEST, args.seed, thorough, budget), "buffer", true);
+    let mut flows_run = vec!["basic", "atomic", "keyed", "buffer"];
+    if thorough || std::env::var("VERIF_C31_MULTI").is_ok() {
+        fold(&mut rep, explore::<Multi>("C31", TEST, args.seed, thorough, budget), "multi", true);
+        flows_run.push("multi");
+    }
     rep.extra("seconds", json!(t0.elapsed().as_secs_f64()));
-    for f in ["basic", "atomic", "keyed", "buffer"] {
+    for f in flows_run {
         rep.require(
             rep.counter(&format!("{f}_exhaustive_executions")) >= 50,
             &format!("flow {f}: fewer than 50 exhaustive executions"),
